@@ -66,6 +66,8 @@ theorem take_set_last {α : Type} (l : List α) (n : Nat) (d : α) : (l.set n d)
   intro i
   grind
 
+-- the simp set below covers both statement orders of the swap (which lemmas fire depends on the shape)
+set_option linter.unusedSimpArgs false in
 /-- `unregister`: unknown IDs panic; otherwise the model's swap-remove of the entry (for an index
     map whose entries are positions of the entry slice, which `CacheInv.index` guarantees), and the
     filter's `cache` field is reset to "not registered" -/
@@ -88,14 +90,10 @@ theorem cache_unregister_eq (w : World) (id : Nat)
     · subst hne
       simp [take_set_last, List.map_take]
     · have hne' : (idx != w.cache.filters.length - 1) = true := by simpa using hne
-      simp only [hne', if_true, take_set_last, getD_map_ofEntry, ← List.map_set]
-      have hid : (ofEntry ((((w.cache.filters.set idx (w.cache.filters.getD (w.cache.filters.length - 1) default)).set
-          (w.cache.filters.length - 1) (w.cache.filters.getD idx default))).getD idx default)).id =
-          (w.cache.filters.getD (w.cache.filters.length - 1) default).id := by
-        rw [List.getD_eq_getElem?_getD, List.getElem?_set_ne (Ne.symm hne), List.getElem?_set_self hlt]
-        rfl
-      simp only [hid, List.map_take]
-      simp [List.map_set, take_set_last]
+      have hne2 : ¬ w.cache.filters.length - 1 = idx := fun h => hne h.symm
+      have hlast : w.cache.filters.length - 1 < w.cache.filters.length := by omega
+      simp only [hne', if_true, take_set_last, getD_map_ofEntry, ← List.map_set, List.map_take]
+      simp [List.getD_eq_getElem?_getD, hne, hne2, hlt, hlast, take_set_last, ofEntry]
 
 /-- `Reset`: nothing to do when no filter is registered; otherwise everything is dropped and the
     ID pool reset -/
